@@ -60,10 +60,11 @@ fn name_to_string(n: &Name) -> String {
 fn render(t: &Table, r: &mut Rng) -> String {
     let mut s = String::from("---\ndns-routes:\n");
     for rt in t {
-        s.push_str(if rt.forward { "  - type: forward\n" } else { "  - type: forge-nxdomain\n" });
-        if rt.forward {
+        // the keys of a route in any order; a forge-nxdomain route may carry a (meaningless, accepted) dns-servers line
+        let mut lines = vec![String::from(if rt.forward { "type: forward" } else { "type: forge-nxdomain" })];
+        if !rt.servers.is_empty() {
             let v: Vec<String> = rt.servers.iter().map(|k| format!("127.0.0.{}", k + 1)).collect();
-            s.push_str(&format!("    dns-servers: [{}]\n", v.join(", ")));
+            lines.push(format!("dns-servers: [{}]", v.join(", ")));
         }
         if !rt.suffixes.is_empty() || r.chance(1, 2) {
             let v: Vec<String> = rt
@@ -77,7 +78,16 @@ fn render(t: &Table, r: &mut Rng) -> String {
                     format!("'{}'", x)
                 })
                 .collect();
-            s.push_str(&format!("    domain-suffixes: [{}]\n", v.join(", ")));
+            lines.push(format!("domain-suffixes: [{}]", v.join(", ")));
+        }
+        for i in (1..lines.len()).rev() {
+            let j = r.below(i as u64 + 1) as usize;
+            lines.swap(i, j);
+        }
+        for (i, l) in lines.iter().enumerate() {
+            s.push_str(if i == 0 { "  - " } else { "    " });
+            s.push_str(l);
+            s.push('\n');
         }
     }
     s
@@ -329,7 +339,7 @@ fn gen_table(r: &mut Rng, stats: &mut Stats) -> Table {
     let mut table: Table = (0..nroutes)
         .map(|_| {
             let forward = r.chance(3, 5);
-            Route { forward, servers: if forward { vec![r.below(NSRV as u64)] } else { vec![] }, suffixes: vec![] }
+            Route { forward, servers: if forward || r.chance(1, 4) { vec![r.below(NSRV as u64)] } else { vec![] }, suffixes: vec![] }
         })
         .collect();
     // a spine of nested names, their siblings, and a few unrelated ones
@@ -461,7 +471,12 @@ async fn run_table(
             }
         }
         Ok((conf, loaded)) => {
-            let same = loaded == *intent;
+            // a forge-nxdomain route has no servers, whatever its dns-servers line says
+            let written: Table = intent
+                .iter()
+                .map(|rt| Route { forward: rt.forward, servers: if rt.forward { rt.servers.clone() } else { vec![] }, suffixes: rt.suffixes.clone() })
+                .collect();
+            let same = loaded == written;
             let router = Arc::new(hk::Router::new(conf).await);
             for (q, rd) in queries {
                 *qid = qid.wrapping_add(1);
